@@ -450,3 +450,118 @@ func TestC07Stress(t *testing.T) {
 			"evaluations = concurrent observations checked; non-trivial = every drawn operation sequence (each is run against live readers); distinct by sequence.",
 		Assumptions: []string{"schedule-dependent: a failure is reported with the operation history and the offending observation; it may not reproduce on replay"}}.Run(t)
 }
+
+// ---------------------------------------------------------------------------
+// (c) two concurrent writers: lost updates
+
+type C07Writers struct {
+	Rounds [][2]COp `json:"rounds"`
+}
+
+func (c C07Writers) Brief() any {
+	n := len(c.Rounds)
+	if n > 12 {
+		n = 12
+	}
+	return map[string]any{"n_rounds": len(c.Rounds), "first_rounds": c.Rounds[:n]}
+}
+
+func genWriterOp(t *rapid.T) COp {
+	switch k := uniform(t, "wop", 100); {
+	case k < 45:
+		return COp{Kind: "reconf", Cfg: intIn(t, "cfg", 1, 4)}
+	case k < 55:
+		return COp{Kind: "reconf_nil"}
+	case k < 60:
+		return COp{Kind: "reconf_invalid"}
+	default:
+		return COp{Kind: "debug", On: chance(t, "on", 60)}
+	}
+}
+
+func c07WritersGen(t *rapid.T) C07Writers {
+	var c C07Writers
+	n := pick(t, "nrounds", []int{300, 1000, 3000})
+	for i := 0; i < n; i++ {
+		a, b := genWriterOp(t), genWriterOp(t)
+		// the interesting pairs mix a configuration change with a debug change
+		if chance(t, "mixed", 60) {
+			a = COp{Kind: "reconf", Cfg: intIn(t, "cfgm", 1, 4)}
+			if chance(t, "nilm", 20) {
+				a = COp{Kind: "reconf_nil"}
+			}
+			b = COp{Kind: "debug", On: chance(t, "onm", 60)}
+		}
+		if chance(t, "swap", 50) {
+			a, b = b, a
+		}
+		c.Rounds = append(c.Rounds, [2]COp{a, b})
+	}
+	return c
+}
+
+func stateSig(m *cors.Middleware) string {
+	var b strings.Builder
+	b.WriteString(cfgJSON(m.Config()))
+	for _, r := range c07Requests {
+		b.WriteString("\n")
+		b.WriteString(Do(m.Wrap, r, nil).Sig())
+	}
+	return b.String()
+}
+
+func c07WritersCheck(c C07Writers, rec *Recorder) *Disc {
+	ref := map[dbgState]string{}
+	sigOf := func(s dbgState) string {
+		if v, ok := ref[s]; ok {
+			return v
+		}
+		v := stateSig(freshMW(s))
+		ref[s] = v
+		return v
+	}
+	s := dbgState{cfg: 1}
+	m := freshMW(s)
+	for i, round := range c.Rounds {
+		start := make(chan struct{})
+		var wg sync.WaitGroup
+		for _, o := range round {
+			o := o
+			wg.Add(1)
+			go func() {
+				defer wg.Done()
+				<-start
+				doCOp(m, o)
+			}()
+		}
+		runtime.Gosched()
+		close(start)
+		wg.Wait()
+		rec.Eval(1)
+		got := stateSig(m)
+		s1 := s.apply(round[0]).apply(round[1])
+		s2 := s.apply(round[1]).apply(round[0])
+		switch {
+		case got == sigOf(s1):
+			s = s1
+		case got == sigOf(s2):
+			s = s2
+		default:
+			return discf("two concurrent writers, round %d: state before %s, concurrent calls %s and %s; afterwards the middleware behaves like neither %s nor %s (the two possible serial orders): Config() and answers = %s",
+				i, s, round[0], round[1], s1, s2, abbrev(got, 500))
+		}
+		if s1 != s2 {
+			rec.Class("order-matters")
+		}
+	}
+	rec.NonTrivialHash(h64(fmt.Sprintf("%+v", c.Rounds[:min(len(c.Rounds), 50)])))
+	return nil
+}
+
+func TestC07Writers(t *testing.T) {
+	Prop[C07Writers]{ID: "C07", Part: "writers", Gen: c07WritersGen, Check: c07WritersCheck,
+		Rule: "(c) two concurrent writers: 300-3000 rounds; in each round two calls (Reconfigure to one of 4 configurations / nil / invalid, SetDebug; 60% of rounds pair a configuration change with a debug change) are released at the same instant on two goroutines; " +
+			"after both returned, Config() and the answers to the 14 requests must equal those of a fresh middleware in the state reached by one of the two serial orders (lost updates are thereby visible). Runs under the race detector. " +
+			"evaluations = rounds; non-trivial = every drawn round sequence; distinct by sequence.",
+		Assumptions: []string{"schedule-dependent like the stress part: a lost update needs the two calls to overlap"}}.Run(t)
+}
